@@ -264,8 +264,10 @@ func cbcCase(c *ev.Case) {
 			return
 		}
 		c.Logf("Decrypt(text with character %d %q -> %q) -> %s, %s  [reference: %s]", i, ct[i], ch, q(got), errStr(err), refVerdict(refPT, refBad))
-		if loose {
-			c.Add("cbc_corruption_crlf_no_verdict", 1)
+		if loose != "" {
+			if !judgeLooseCBC(c, lz("Decrypt%s", comboStr(combo, false)), lz("%s (character %d of a valid ciphertext changed from %q to %q; secret %s)", q(mut), i, ct[i], ch, q(s)), got, err, refPT, refBad, loose) {
+				return
+			}
 			continue
 		}
 		if !judgeCBC(c, lz("Decrypt%s", comboStr(combo, false)), lz("%s (character %d of a valid ciphertext changed from %q to %q; secret %s)", q(mut), i, ct[i], ch, q(s)), got, err, refPT, refBad) {
@@ -283,13 +285,19 @@ func cbcCase(c *ev.Case) {
 			} else {
 				mut = append([]byte(extra), ct...)
 			}
-			refPT, refBad, _ := refOpenText(mut, s)
+			refPT, refBad, loose := refOpenText(mut, s)
 			combo := rng.Intn(16)
 			got, err, ok = t.decrypt(mut, s, combo)
 			if !ok {
 				return
 			}
 			c.Logf("Decrypt(valid text with %q added at side %d) -> %s, %s  [reference: %s]", extra, side, q(got), errStr(err), refVerdict(refPT, refBad))
+			if loose != "" {
+				if !judgeLooseCBC(c, lz("Decrypt%s", comboStr(combo, false)), lz("%s (a valid ciphertext with %q added at the %s; secret %s)", q(mut), extra, []string{"end", "front"}[side], q(s)), got, err, refPT, refBad, loose) {
+					return
+				}
+				continue
+			}
 			if !judgeCBC(c, lz("Decrypt%s", comboStr(combo, false)), lz("%s (a valid ciphertext with %q added at the %s; secret %s)", q(mut), extra, []string{"end", "front"}[side], q(s)), got, err, refPT, refBad) {
 				return
 			}
